@@ -585,7 +585,18 @@ func genAdvPeer(rt *rapid.T, nm *hx.NodeMachine, cfg genCfg) hx.NOp {
 		}
 	}
 	op := genPeerOn(rt, nm, cfg, parent)
-	switch rapid.IntRange(0, 6).Draw(rt, "advpeer") {
+	switch rapid.IntRange(0, 9).Draw(rt, "advpeer") {
+	case 7, 8, 9:
+		// an adversarial candidate of the pool path (unbalanced, double input, wrong cited amount / owner / frozen
+		// height, spent or off-chain outputs, odd encodings ...) delivered INSIDE a block: the block is valid exactly
+		// when the model admits the transaction on the parent's state
+		if nm.Valid[m.Tip] {
+			adv := genAdvOp(rt, nm, cfg)
+			if adv.Op == "tx" && adv.Tx != nil && adv.BuildAt == nil && !adv.Tx.Coinbase {
+				op = hx.NOp{Op: "peer", Label: op.Label, Parent: m.Tip, Proposer: op.Proposer, Txs: []hx.TxSpec{*adv.Tx},
+					Expect: "in-block:" + adv.Expect}
+			}
+		}
 	case 5:
 		op.CBIn = rapid.IntRange(1, 3).Draw(rt, "cbin")
 		op.Expect = "coinbase-with-input-or-write"
